@@ -46,16 +46,17 @@ func (m c17KV) sorted() c17KV {
 // the Lean client's output, (b) by an independent oracle with what the caller supplied.
 func TestVerif_C17_e2e(t *testing.T) {
 	s := verifh.New(t, "C17", "e2e",
-		"requests over HTTP/1.1 (cleartext) and HTTP/2 (TLS): urlencoded forms (request + client level, ordered, both), multipart (ordered / map fields, client-level fields, 0..4 files by path/bytes/reader/FileUpload with sizes around 512 B and 32 KiB, names needing quoting, default and custom boundaries, forced multipart without files, forced chunked encoding), marshalled JSON/XML with Content-Type presets, raw bodies, GET/HEAD/OPTIONS with AllowGetMethodPayload on/off; server side: ParseForm, MultipartReader + ReadForm rules, json/xml decoders; non-trivial = a request whose body carried at least 2 items")
+		"requests over HTTP/1.1 (cleartext), HTTP/2 (TLS, x/net/http2 server) and HTTP/3 (quic-go server): urlencoded forms (request + client level, ordered, both), multipart (ordered / map fields, client-level fields, 0..4 files by path/bytes/reader/FileUpload with sizes around 512 B and 32 KiB, names needing quoting, default and custom boundaries, forced multipart without files, forced chunked encoding), marshalled JSON/XML with Content-Type presets, raw bodies, GET/HEAD/OPTIONS with AllowGetMethodPayload on/off; server side: ParseForm, MultipartReader + ReadForm rules, json/xml decoders; non-trivial = a request whose body carried at least 2 items")
 	r := s.Rand()
 	dir := t.TempDir()
-	origins := map[string]*c17Origin{"h1": c17NewOrigin("h1"), "h2": c17NewOrigin("h2")}
-	defer origins["h1"].srv.Close()
-	defer origins["h2"].srv.Close()
-	n := verifh.N(450, 15000)
+	origins := map[string]*c17Origin{"h1": c17NewOrigin("h1"), "h2": c17NewOrigin("h2"), "h3": c17NewOrigin("h3")}
+	defer origins["h1"].stop()
+	defer origins["h2"].stop()
+	defer origins["h3"].stop()
+	n := verifh.N(1000, 15000)
 	boundaries := []string{"", "", "B", "a b", "with:colon=and?q", "----WebKitFormBoundary7MA4YWxkTrZu0gW"}
 	for i := 0; i < n; i++ {
-		proto := verifh.Pick(r, []string{"h1", "h1", "h2"})
+		proto := verifh.Pick(r, []string{"h1", "h1", "h1", "h2", "h2", "h3"})
 		o := origins[proto]
 		c := c17Client(proto)
 		s.Count(proto)
@@ -167,7 +168,7 @@ func TestVerif_C17_e2e(t *testing.T) {
 				setClass("c17-plain-and-ordered")
 			}
 			req.Method = method
-			resp, err := req.Send(method, o.srv.URL+"/f")
+			resp, err := req.Send(method, o.base+"/f")
 			seen := o.take()
 			line = "c17forme2e " + rq.line() + " " + cl.line() + " " + verifh.HexList(ordArgs)
 			// supplied multimap: ordered pairs first, then request values, then client values
@@ -257,7 +258,7 @@ func TestVerif_C17_e2e(t *testing.T) {
 				req.EnableForceChunkedEncoding()
 				s.Count("forced-chunked")
 			}
-			resp, err := req.Send(method, o.srv.URL+"/m")
+			resp, err := req.Send(method, o.base+"/m")
 			seen := o.take()
 			// the model's field list: ordered pairs, then the merged map sorted by key
 			merged := c17KV{}
@@ -375,7 +376,7 @@ func TestVerif_C17_e2e(t *testing.T) {
 			case "files":
 				req.SetFileBytes("f", "n.txt", []byte("data"))
 			}
-			resp, err := req.Send(method, o.srv.URL+"/b")
+			resp, err := req.Send(method, o.base+"/b")
 			seen := o.take()
 			js, jerr := json.Marshal(marshalVal)
 			xs, xerr := xml.Marshal(marshalVal)
